@@ -122,6 +122,16 @@ def print_inline(crate, extra=()):
     return lambda a, b: b.path in ok
 
 
+SCALARS = ("u8", "u16", "u32", "u64", "usize", "i8", "i16", "i32", "i64", "isize", "bool", "char", "f64", "f32")
+
+
+def scalar_fn(b):
+    """A local function over scalar arguments only (`fn digit_value(c: u8) -> Option<u8>`, `fn is_delimiter(c: u8) ->
+    bool`, `fn integer_from_parts(pos: bool, magnitude: u64) -> Number`): it cannot touch the reader, so every
+    evaluation looks through it."""
+    return b.kind != "closure" and b.arg_count >= 1 and all(b.local_ty(i) in SCALARS for i in range(1, b.arg_count + 1))
+
+
 def helper_inline(crate, named=()):
     """Inline policy: the named wrappers plus every loop-free local helper of the parse module and every
     local byte predicate `fn(u8) -> bool`."""
@@ -129,8 +139,7 @@ def helper_inline(crate, named=()):
     light = light_fns(crate)
 
     def inline(a, b):
-        return b.path in named or b.path in light or (
-            b.crate == crate.name and b.arg_count == 1 and b.local_ty(1) == "u8" and b.local_ty(0) == "bool")
+        return b.path in named or b.path in light or (b.crate == crate.name and scalar_fn(b))
     return inline
 
 
@@ -144,7 +153,7 @@ def make_sim(crates, d, nth=0, extra=None, more_inline=(), opaque=None, max_dept
 
     def inline(a, b):
         # named wrappers, plus any local byte predicate `fn(u8) -> bool` (is_delimiter and friends)
-        return b.path in inl or (b.arg_count == 1 and b.local_ty(1) == "u8" and b.local_ty(0) == "bool")
+        return b.path in inl or scalar_fn(b)
     return sim.Sim(crates, hooks=hooks, inline=inline, max_depth=max_depth)
 
 
